@@ -366,14 +366,15 @@ class nx_flow_mod (of.ofp_flow_mod, of.ofp_vendor_base):
           Specifically, it may also have a barrier and an ofp_packet_out.
     """
     po = None
+    buffer_id = self._buffer_id
     if self.data:
       #TODO: It'd be nice to log and then ignore if not data_is_complete.
       #      Unfortunately, we currently have no logging in here, so we
       #      assert instead which is a either too drastic or too quiet.
       assert self.data.is_complete
       assert self.buffer_id is None
-      self.buffer_id = self.data.buffer_id
-      if self.buffer_id is None:
+      buffer_id = self.data._buffer_id
+      if self.data.buffer_id is None:
         po = of.ofp_packet_out(data=self.data)
         po.in_port = self.data.in_port
         po.actions.append(of.ofp_action_output(port = of.OFPP_TABLE))
@@ -392,7 +393,7 @@ class nx_flow_mod (of.ofp_flow_mod, of.ofp_vendor_base):
     packed += struct.pack("!LL", self.vendor, self.subtype)
     packed += struct.pack("!QHHHHLHHH", self.cookie, command,
                           self.idle_timeout, self.hard_timeout,
-                          self.priority, self._buffer_id, self.out_port,
+                          self.priority, buffer_id, self.out_port,
                           self.flags, match_len)
     packed += _PAD6
     packed += match
